@@ -209,14 +209,29 @@ structure R (σ : Type) where
   ok : Bool
   st : σ
 
+/-- `!includeStart && !hit && start != nil && !start.Less(item)`: the pivot itself, met by an exclusive scan -/
+def skipAsc {σ} (q : Q σ) (r : R σ) (i : Item) : Bool :=
+  !q.incl && !r.hit && (match q.start with
+    | some s => !(decide (s < i.key))
+    | none => false)
+
+/-- `stop != nil && !item.Less(stop)` -/
+def pastStopAsc {σ} (q : Q σ) (i : Item) : Bool :=
+  match q.stop with
+  | some t => !(decide (i.key < t))
+  | none => false
+
+/-- `stop != nil && !stop.Less(item)` -/
+def pastStopDesc {σ} (q : Q σ) (i : Item) : Bool :=
+  match q.stop with
+  | some t => !(decide (t < i.key))
+  | none => false
+
 /-- the part of the ascending loop body after the left child was visited -/
 def stepAsc {σ} (q : Q σ) (r : R σ) (i : Item) : R σ :=
-  if !q.incl && !r.hit && (match q.start with | some s => !(decide (s < i.key)) | none => false) then
-    { r with hit := true }
-  else if (match q.stop with | some t => !(decide (i.key < t)) | none => false) then
-    { hit := true, ok := false, st := r.st }
-  else
-    { hit := true, ok := (q.cb r.st i).2, st := (q.cb r.st i).1 }
+  if skipAsc q r i then { r with hit := true }
+  else if pastStopAsc q i then { hit := true, ok := false, st := r.st }
+  else { hit := true, ok := (q.cb r.st i).2, st := (q.cb r.st i).1 }
 
 /-- `for i := index; i < len(items); i++ { child i; item i }` then the last child; the lists are
     `items[index:]` and `children[index:]` -/
@@ -249,8 +264,7 @@ def skipDesc {σ} (q : Q σ) (r : R σ) (i : Item) : Bool :=
   | none => false
 
 def stepDesc {σ} (q : Q σ) (r : R σ) (i : Item) : R σ :=
-  if (match q.stop with | some t => !(decide (t < i.key)) | none => false) then
-    { r with ok := false }
+  if pastStopDesc q i then { r with ok := false }
   else
     { hit := true, ok := (q.cb r.st i).2, st := (q.cb r.st i).1 }
 
